@@ -50,7 +50,8 @@ class C18Machine(RuleBasedStateMachine):
         vg = values.VG(data.draw, spec, values.ValCfg(max_len=10, max_depth=3,
                                                      chars='xml' if self.codec == 'xer' else 'any'))
         self.pool = []
-        tops = spec.top_types()[:3]
+        tops = spec.top_types()
+        tops = tops[:3] + [t for t in tops[3:] if t[1] in common.FLOOR_TYPES]
         feats = set()
         for (m, name, ty) in tops:
             feats |= common.type_features(spec, ty, m.name)
@@ -69,6 +70,15 @@ class C18Machine(RuleBasedStateMachine):
                         self.pool.append(('dec', name, b[:i] + bytes([b[i] ^ (1 << data.draw(st.integers(0, 7)))]) + b[i + 1:]))
             self.pool.append(('enc', name, data.draw(st.sampled_from(BAD_VALUES))))
             self.pool.append(('enc-nocheck', name, data.draw(st.sampled_from(BAD_VALUES))))
+        # the containers of the shared-reference floor have the same member names and referenced types: a value of one
+        # is also offered to the other (accepted or rejected - in either case the same as on a fresh compile), so
+        # that state shared between their checkers or codecs is fed the same strings and numbers from both sides
+        names = {t[1] for t in tops}
+        for a_, b_ in (('Dv', 'Dw'), ('Dw', 'Dv')):
+            if a_ in names and b_ in names:
+                for op in list(self.pool):
+                    if op[0] == 'enc' and op[1] == a_ and isinstance(op[2], dict):
+                        self.pool.append(('enc', b_, copy.deepcopy(op[2])))
         if not self.pool:
             return
         self.recursive = 'recursive' in feats
